@@ -192,3 +192,6 @@ for u in list(units_of("C05")):
     pass
 _re("RECOVER", units_of("C10"), lambda n: n.startswith(("RESOLVE", "RECOVER", "PARSE-TOTAL")))
 _re("INIT", units_of("C10"), lambda n: n.startswith("NO-REINIT"))
+
+from contracts import lemmas as _L  # noqa: E402
+register(Unit(P, "LEMMA/CRASH", _L.h_crash, functions=[], replay=_replay_crash, uses=_L.CRASH_USES))
